@@ -363,6 +363,8 @@ defvjp(anp.repeat, grad_repeat)
 def grad_tile(ans, x, reps):
     reps = [reps] if anp.isscalar(reps) else reps
     x_shape = anp.shape(x)
+    # numpy.tile aligns a short reps with the trailing axes of x
+    reps = [1] * (len(x_shape) - len(reps)) + list(reps)
 
     def vjp(g):
         for axis, rep in enumerate(reps):
